@@ -144,6 +144,31 @@ func main() {
 		runCase(out, next(), "rfc", true, "basic", lib.Str(strings.Repeat("x", ln)))
 		runCase(out, next(), "rfc", true, "basic", lib.Bytes(strings.Repeat("y", ln)))
 	}
+	// wide containers: more entries than sort.Slice's insertion-sort threshold with many equal-length keys, the
+	// count-head boundaries, and more entries than the decoder's default depth limit with containers at late
+	// positions (per-position bookkeeping must not leak between siblings)
+	wides := []int{13, 14, 20, 25, 33, 64, 257, 1023, 1024, 1025, 1100}
+	nw := 2
+	if fl.Tier == "thorough" {
+		nw = 8
+	}
+	for _, w := range wides {
+		for rep := 0; rep < nw; rep++ {
+			if w > 300 && rep >= (nw+1)/2 {
+				continue
+			}
+			for shape := 0; shape < 2; shape++ {
+				v := rng.GenWide(cfg, shape, w)
+				base := next()
+				runCase(out, base+".0", "rfc", true, "basic", v)
+				runCase(out, base+".1", "rfc", true, "basic", rng.Permuted(v))
+				if rep == 0 && w < 100 {
+					runCase(out, base+".lex", "lex", true, "basic", rng.Permuted(v))
+					runCase(out, base+".none", "none", true, "basic", rng.Permuted(v))
+				}
+			}
+		}
+	}
 	for i := 0; i < n; i++ {
 		v := rng.GenVal(cfg, 0)
 		if i%7 == 0 { // force a map at the root fairly often: key order is the heart of C02
